@@ -22,3 +22,5 @@ META = {
 
 def run(ctx):
     S.r10_hooks(ctx)
+    from . import dumpside as D
+    D.r11_3_pyyaml_tables(ctx, 'R10.6')
